@@ -56,6 +56,10 @@ class Ctx:
     def observe(self, label, value):
         self.observations.append((label, value))
 
+    def inconclusive(self, reason):
+        """the harness cannot observe what it needs on this code: no verdict (exit 2), never a finding"""
+        raise E.Inconclusive(reason)
+
 
 class SymCtx(Ctx):
     mode = "sym"
